@@ -307,3 +307,59 @@ Print Assumptions C10_source_cache_independent.
 Print Assumptions C10_source_gs_next_guess_is_model.
 Print Assumptions C10_source_fill_out_parse_tree_is_model.
 Print Assumptions C10_source_mc_next_guess_is_model.
+
+(* ---------------------------------------------------------------- translator tie of the two readers of the OMEN files (T19)
+
+   gen/Loader2_gen.v: lib_guesser/omen/input_file_io.py load_rules (what the generator walks) and
+   lib_scorer/omen_scorer.py OmenScorer.__init__ / _load_omen (what the scorer looks levels up in), translated
+   from the current source on every run (harness/translate_loader2.py, runtime theories/Loader2Rt.v; equalities
+   with the models in theories/Loader2GenProofs.v, see Props/C07.v).  "Generator and scorer read the same
+   tables from the same files": for EVERY world (whatever configparser, int() and the open calls return), when
+   load_rules returns True and the constructor returns - on a directory whose IP / CP / LN.level the two open
+   calls read as the same lines up to the line ends - the dict the guesser walks and the object of the scorer
+   are built from the same items and agree on every n-gram and level. *)
+From Pcfg Require Import TextFile LoaderRt Loader2Rt Loader2Model Loader2GenProofs Loader2OmenFacts.
+From PcfgGen Require Import Loader2_gen.
+
+Theorem C10_source_omen_readers_agree :
+  forall (fo : fops) (C SS : Type) (W : world fo C SS) (iws : N -> bool) (dz : list N),
+  (forall s, w_pint W s = parse_int iws dz s) ->
+  forall (dir base enc : pstr) (vmax g obj r : pyval (F fo) C SS),
+  py_omen_load_rules fo W (VStr dir) (VDict []) = XDone (g, VBool true) ->
+  py_omen_scorer_init fo W (VObj []) (VStr base) (VStr enc) vmax = XDone (obj, r) ->
+  (forall genc lg ls, w_codecs_open W (w_path_join W [dir; n_ip_level]) (Some genc) (Some k_strict) = XDone lg ->
+                      w_open W (w_path_join W [base; n_omen; n_ip_level]) (Some enc) None = XDone ls -> same_lines lg ls) ->
+  (forall genc lg ls, w_codecs_open W (w_path_join W [dir; n_cp_level]) (Some genc) (Some k_strict) = XDone lg ->
+                      w_open W (w_path_join W [base; n_omen; n_cp_level]) (Some enc) None = XDone ls -> same_lines lg ls) ->
+  (forall lg ls, w_open W (w_path_join W [dir; n_ln_level]) None None = XDone lg ->
+                 w_open W (w_path_join W [base; n_omen; n_ln_level]) None None = XDone ls -> same_lines lg ls) ->
+  exists gt st ip cp,
+    g = enc_omen_tables gt /\ obj = enc_scorer (VStr enc) vmax st /\
+    ot_ip gt = ip_buckets ip /\ st_ip st = ep_dict ip /\ cp_dict cp = Some (ot_cp gt) /\ st_cp st = ep_dict cp /\
+    ot_ln gt = ln_guesser (ot_ngram gt) (st_ln st) /\
+    (* an initial n-gram is in grammar['ip'][l] iff scorer.ip says l *)
+    (NoDup (map snd ip) -> forall s l, (l < 11)%nat ->
+       (In s (nth l (ot_ip gt) []) <-> dict_get s (st_ip st) = Some (Z.of_nat l))) /\
+    (* a character c is in grammar['cp'][p][l] iff scorer.cp[p + c] says l *)
+    (NoDup (map snd cp) -> forall p l c,
+       (In c (cp_chars (ot_cp gt) p l) <-> dict_get (p ++ [c]) (st_cp st) = Some l)) /\
+    (* len - (ngram - 1) is in grammar['ln'][l] iff line len of LN.level (scorer.ln[len]) says l *)
+    (forall i l, (i < length (st_ln st))%nat -> (l < 11)%nat -> (ot_ngram gt <= Z.of_nat (S i))%Z ->
+       (In (Z.of_nat (S i) - (ot_ngram gt - 1))%Z (nth l (ot_ln gt) []) <-> nth_error (st_ln st) i = Some (Z.of_nat l))).
+Proof. exact (@source_omen_readers_agree). Qed.
+
+(* the hypotheses are satisfiable and both translated readers run: a directory with two IP lines, two CP lines and
+   three lengths (ngram 3) *)
+Theorem C10_source_omen_readers_example :
+  (exists gt, py_omen_load_rules ex_fo ex_world (VStr [79; 109; 101; 110]%N) (VDict []) = XDone (enc_omen_tables gt, VBool true) /\
+              ot_ngram gt = 3%Z /\ nth 1 (ot_ip gt) [] = [[97; 98]%N] /\ nth 0 (ot_ip gt) [] = [[98; 97]%N] /\
+              cp_chars (ot_cp gt) [97; 98]%N 2%Z = [99%N] /\ nth 1 (ot_ln gt) [] = [1%Z]) /\
+  (exists st, py_omen_scorer_init ex_fo ex_world (VObj []) (VStr []) (VStr [117; 116; 102; 45; 56]%N) (VInt 9) =
+              XDone (enc_scorer (VStr [117; 116; 102; 45; 56]%N) (VInt 9) st, VNone) /\
+              dict_get [97; 98]%N (st_ip st) = Some 1%Z /\ dict_get [97; 98; 99]%N (st_cp st) = Some 2%Z /\
+              st_ngram st = 3%Z /\ st_ln st = [0; 3; 1]%Z) /\
+  (forall s, w_pint ex_world s = parse_int ex_iws ex_dz s).
+Proof. exact source_omen_readers_example. Qed.
+
+Print Assumptions C10_source_omen_readers_agree.
+Print Assumptions C10_source_omen_readers_example.
